@@ -103,6 +103,7 @@ type IfaceSpec struct {
 }
 
 type GlobalFact struct {
+	Lib  bool
 	Key  string
 	Expr ast.Expr
 	Text string
@@ -395,7 +396,13 @@ func (P *Program) parseClauses(lines []cline, sc *Scope, pkgPath string, lib boo
 			if err != nil {
 				return errf(l, "%v in %q", err, body)
 			}
-			P.Globals[pkgPath+"."+name] = &GlobalFact{Key: pkgPath + "." + name, Expr: e, Text: body, Scope: sc}
+			key := pkgPath + "." + name
+			if j := strings.Index(name, "."); j > 0 {
+				if pkg := sc.Aliases[name[:j]]; pkg != nil {
+					key = pkg.Path() + name[j:]
+				}
+			}
+			P.Globals[key] = &GlobalFact{Key: key, Expr: e, Text: body, Scope: sc, Lib: lib}
 			cur = nil
 		default:
 			return errf(l, "unknown clause %q", w)
